@@ -281,7 +281,9 @@ def kani_replay(crate_dir, harness, features=None, keep_dir=None, unwind_timeout
                 pcmd += ["--features", ",".join(features)]
             env = dict(ENV)
             env["CARGO_TARGET_DIR"] = tdir
-            rc2, out2 = sh(pcmd + ["--", "zz_playback::"], cwd=dst, timeout=1200, env=env)
+            rc2, out2 = sh(pcmd + ["--lib", "--", "zz_playback::"], cwd=dst, timeout=1200, env=env)
+            if "unexpected argument" in out2 or "error: Found argument" in out2:
+                rc2, out2 = sh(pcmd + ["--", "zz_playback::"], cwd=dst, timeout=1200, env=env)
             result["test"] = ", ".join(sorted(seen))
             result["log"] = out2[-5000:]
             failed_natively = re.search(r"panicked at|test result: FAILED|signal: \d+|SIGABRT|SIGSEGV|double free|process didn't exit successfully", out2)
